@@ -157,6 +157,10 @@ fn sized_programs() -> Vec<(String, String)> {
         v.push((format!("nesting:cond:{}", n), format!("{} 1 {}", "(cond (#f 0) (else ".repeat(n), "))".repeat(n))));
     }
     for (l, s) in [
+        // histories: the API must stay total across evaluations that fail in between
+        ("history:deep-continuation-reentered-after-an-error", "(define k #f) (define (deep n) (if (= n 0) (call/cc (lambda (c) (set! k c) 0)) (+ 1 (deep (- n 1))))) (deep 300) (car 5) (define again #t) (if again (begin (set! again #f) (k 5)) 'done)"),
+        ("history:deep-continuation-reentered-after-a-syntax-error", "(define k #f) (define (deep n) (if (= n 0) (call/cc (lambda (c) (set! k c) 0)) (+ 1 (deep (- n 1))))) (deep 60) (if) (define again #t) (if again (begin (set! again #f) (k 5)) 'done)"),
+        ("history:deep-recursion-after-many-errors", "(define (deep n) (if (= n 0) 0 (+ 1 (deep (- n 1))))) (car 1) (vector-ref (vector) 0) (undefined-name) (deep 5000) ((lambda (x) x)) (deep 5000)"),
         ("size:make-vector-1e6", "(vector-length (make-vector 1000000 0))"),
         ("size:make-string-1e6", "(string-length (make-string 1000000 #\\a))"),
         ("size:expt-2-1e6", "(even? (expt 2 1000000))"),
